@@ -14,7 +14,7 @@ RULE = (
     "within <=1 deviation of the default over (texture kind(5), volume vector(2), n_grains(4), "
     "parameter set(14)); update alphabet = 6 flows (simple shear, pure shear, generic 3-D with "
     "vorticity, generic with trace, time-dependent, position-dependent along a pathline) x strain "
-    "increment {0.1, 0.5} + rigid-body rotation + zero gradient + shear fading into spin + the other five axis-aligned simple shears (20 letters; axis-aligned textures under every shear plane hit the exact-zero slip guards); ALL sequences to depth 2 (quick) / 3 (thorough) from every root. Long "
+    "increment {0.1, 0.5} + rigid-body rotation + zero gradient + shear fading into spin + the other five axis-aligned simple shears + two intervals run backwards in time (22 letters; axis-aligned textures under every shear plane hit the exact-zero slip guards); ALL sequences to depth 2 (quick) / 3 (thorough) from every root. Long "
     "chains: a span of strain 1 split into k in {1,2,5,10,25,50,100} uniform updates and into all 7 "
     "compositions with <=3 parts on a quarter grid. Default-constructed minerals (3500 grains) built "
     "twice per seed. The invariant is evaluated on every stored snapshot after every transition, "
@@ -27,7 +27,7 @@ ASSUMPTIONS = [
     "an update that raises appends nothing and is not expanded (counted in notes.rejected_updates); C07 decides which updates may raise",
     "n_grains <= 8 in histories (3500 for the default-constructed mineral); banded-Jacobian path (n > 4632) outside the bound",
 ]
-BOUND = {"quick": "history depth 2, 20 update letters, <=1 root deviation", "thorough": "history depth 3 over 15 letters from the <=1-deviation roots; depth 2 over 20 letters from the roots with 2 deviations"}
+BOUND = {"quick": "history depth 2, 22 update letters, <=1 root deviation", "thorough": "history depth 3 over 15 letters from the <=1-deviation roots; depth 2 over 22 letters from the roots with 2 deviations"}
 CHUNK = 1
 
 
@@ -47,6 +47,8 @@ def warmup():
 # and a zero gradient -- both are finite velocity gradients and hit the guards of the
 # non-dimensionalisation (found missing by seeded change C01/rigid-rotation-NaN)
 LETTERS = H.STEP_LETTERS + [("rigid", 0.5), ("zero", 0.5), ("tospin", 0.5)] + [(f, 0.5) for f in ("ss_xy", "ss_yx", "ss_yz", "ss_zx", "ss_zy")]
+# intervals run backwards in time (time_end < time_start)
+LETTERS += [("gen", -0.3), ("ss_xz", -0.5)]
 GETREG = {
     "disl_yield": lambda t, x: 4 if int(t * 10) % 2 == 0 else 6,
     "disl_then_null": lambda t, x: 4 if t < 0.3 else 7,
@@ -62,7 +64,7 @@ def gen_cases(tier, seed):
         k["depth"] = 2 if tier == "quick" else 3
     if tier == "thorough":
         # depth 3 from the <=1-deviation roots (over the 15 core letters, see run_case) and
-        # depth 2 over all 20 letters from the roots with exactly 2 deviations
+        # depth 2 over all 22 letters from the roots with exactly 2 deviations
         have = {tuple(sorted(k.items())) for k in keys}
         for k in H.root_keys(tier, list(H.REGIMES), dev=2):
             k["depth"] = 3
